@@ -129,6 +129,54 @@ theorem content_key_iff (n : Bytes) :
 example : headerKey "x-forwarded-for".b = "HTTP_X_FORWARDED_FOR".toList := by decide +kernel
 example : headerKey "Content-Length".b = "HTTP_CONTENT_LENGTH".toList := by decide +kernel
 
+/-! ### the codecs of `_build_environ` (read off the source on every run: `HC/Extracted/WsgiSites.lean`) -/
+
+/-- **a header value is decoded as latin-1, strictly, with no second attempt in another codec** - decided on the `.decode()`
+    call the extractor read in the header loop of `_build_environ`; every statement about header variables below rests on it -/
+theorem header_value_latin1 (b : Bytes) : headerValue b = some (latin1 b) := by
+  simp [headerValue, decodeWith, codecDecode, Extracted.WsgiSites.environHeaderValueDecode]
+
+/-- the other transcodings the model has built in: header names are latin-1 (`headerKey` upper-cases byte by byte with
+    `upperL1`), the query string is ASCII (`asciiDecode`), the path and the root path are UTF-8 bytes re-read as latin-1
+    (`latin1 (utf8 …)`) -/
+theorem environ_codecs :
+    Extracted.WsgiSites.environHeaderNameDecode = { codec := .latin1, errors := none, fallback := none } ∧
+    Extracted.WsgiSites.environQueryDecode = { codec := .ascii, errors := none, fallback := none } ∧
+    Extracted.WsgiSites.environPathTranscode = { encode := .utf8, decode := .latin1 } ∧
+    Extracted.WsgiSites.environScriptNameTranscode = { encode := .utf8, decode := .latin1 } := by decide
+
+private theorem latin1_roundtrip (b : Bytes) : (latin1 b).mapM encodeChar = some b := by
+  induction b with
+  | nil => rfl
+  | cons x xs ih =>
+    have hx : x.toNat < 256 := x.toNat_lt
+    have hc : (Char.ofNat x.toNat).toNat = x.toNat := by
+      have : x.toNat.isValidChar := by
+        left
+        omega
+      simp [Char.ofNat, this, Char.toNat, Char.ofNatAux]
+    have ih' : List.mapM encodeChar (latin1 xs) = some xs := ih
+    simp only [latin1, List.map_cons, List.mapM_cons, encodeChar, hc, hx, ↓reduceIte]
+    simp only [latin1] at ih'
+    simp [ih']
+
+/-- **PEP 3333 round trip**: the native string handed to the application for a header value gives the request's bytes back
+    under `value.encode("latin1")` - for EVERY byte string, in particular one that happens to be valid multi-byte UTF-8 -/
+theorem header_value_roundtrip (b : Bytes) : (headerValue b).bind (fun v => v.mapM encodeChar) = some b := by
+  rw [header_value_latin1]
+  exact latin1_roundtrip b
+
+/-- why the codec matters: decoding as UTF-8 first (latin-1 only as the fall-back) hands the application `é` for the bytes
+    `C3 A9` - which `encode("latin1")` turns into the single byte `E9` - and `中` for `E4 B8 AD`, which `encode("latin1")`
+    rejects (UnicodeEncodeError); a byte string that is not UTF-8 still round-trips, so only valid multi-byte UTF-8 shows it -/
+theorem utf8_first_breaks_roundtrip :
+    let d : Extracted.WsgiSites.Decode := { codec := .utf8, errors := none, fallback := some .latin1 }
+    (decodeWith d [0xC3, 0xA9]).bind (fun v => v.mapM encodeChar) = some [0xE9] ∧
+    (decodeWith d [0xE4, 0xB8, 0xAD]).bind (fun v => v.mapM encodeChar) = none ∧
+    (decodeWith d [0xF0, 0x9F, 0x98, 0x80]).bind (fun v => v.mapM encodeChar) = none ∧
+    (decodeWith d [0x76, 0xE9]).bind (fun v => v.mapM encodeChar) = some [0x76, 0xE9] ∧
+    (decodeWith d [0xC3, 0xA9, 0xFF]).bind (fun v => v.mapM encodeChar) = some [0xC3, 0xA9, 0xFF] := by decide
+
 /-- values of the header lines whose variable is `k`, in arrival order -/
 def valuesFor (k : Str) (hs : Headers) : List Str :=
   (hs.filter (fun h => headerKey h.1 = k)).map (fun h => latin1 h.2)
@@ -166,6 +214,7 @@ private theorem addHeaders_spec (hs : Headers) : ∀ (e : Environ), StrInv e →
     have step : ∃ new, addHeader e h = .ok (setKey (headerKey h.1) (.str new) e) ∧
         new = joinComma ((match getKey (headerKey h.1) e with | some (.str s) => [s] | _ => []) ++ [latin1 h.2]) := by
       unfold addHeader
+      rw [header_value_latin1]
       cases hg : getKey (headerKey h.1) e with
       | none => exact ⟨_, rfl, by simp [joinComma]⟩
       | some v =>
